@@ -218,6 +218,98 @@ def search(ctx, protos, per, exhaustive_limit):
     return hits
 
 
+# ---------------------------------------------------------------------- C01 by exhaustion of a small parameter space
+X_HEADER = '''From Coq Require Import ZArith List Bool Lia String.
+Require Import PyIR.Base.Result PyIR.IW.IW PyIR.Engine.Render PyIR.Engine.Parse PyIR.Engine.ParseM PyIR.Engine.ParseMD PyIR.Engine.ParseHT
+               PyIR.Engine.ParseMT PyIR.Engine.ParseB PyIR.Proto.Descriptor PyIR.Proto.Model PyIR.Proto.Exhaustive.
+Require Import Gen.Tables Gen.P_%s.
+Import ListNotations.
+Open Scope Z_scope.
+Open Scope string_scope.
+'''
+
+
+def engine_parse_expr(p):
+    """Gallina term of type list Z -> result parsed: the engine model of the protocol's engine class on its class tables."""
+    name = p['name']
+    li, lo = '(d_lead_in D_%s)' % name, '(d_lead_out D_%s)' % name
+    if engine.modelled_MD(p):
+        md = p['middle'][0]
+        return 'parseMD 20 %s %s %s {| md_start := %s; md_stop := %s; md_bursts := %s |}' % (
+            li, lo, engine.coq_ptable(p['bursts']), vlib.z(md['start']), vlib.z(md['stop']), engine.coq_ptable(md['bursts']))
+    if engine.modelled_HT(p):
+        return 'parseHT 20 %s %s %s %s' % (li, lo, engine.coq_ptable(p['middle']), engine.coq_ptable(p['bursts']))
+    if engine.modelled_MT(p):
+        return 'parseMT 20 %s %s (map mk_mid %s) %s' % (li, lo, engine.coq_mids(p['middle']), engine.coq_ptable(p['bursts']))
+    if engine.modelled_B(p):
+        return 'parseB 20 %s %s (%s) (%s)' % (li, lo, vlib.z(p['bursts'][0]), vlib.z(p['bursts'][1]))
+    if engine.modelled_C(p):
+        return 'parseC 20 %s %s %s' % (li, lo, engine.coq_ptable(p['bursts']))
+    return None
+
+
+def gen_exhaustive(limit):
+    def gen(e):
+        p, m = e['p'], e['model']
+        name = p['name']
+        if not e['compiled']:
+            return None, e['why']
+        eps = p['encode_parameters']
+        space = 1
+        for _, lo, hi in eps:
+            space *= (hi - lo + 1)
+        if not eps or space > limit:
+            return None, 'parameter space of %d assignments is above the bound %d of this tier' % (space, limit)
+        if m['status'].get('encode') != 'ok':
+            return None, m['status'].get('encode')
+        if m['status'].get('decode') != 'ok':
+            return None, m['status'].get('decode')
+        parse = engine_parse_expr(p)
+        if parse is None:
+            return None, 'no engine model for this class of tables'
+        attr = m['attr']
+        if any(a not in attr for a, _, _ in eps):
+            return None, 'an encode parameter is not readable from a decoded field'
+        order = [x[0] for x in p['parameters']]
+        if not order or any(attr[a] not in order for a, _, _ in eps):
+            return None, 'a reported field is not in _parameters'
+        args = ' '.join('a_' + a for a, _, _ in eps)
+        fl = ' '.join('f_' + n for n in order)
+        names = '[' + '; '.join('"%s"' % n for n in order) + ']'
+        flds = '[' + '; '.join('f_' + n for n in order) + ']'
+        rep = ' && '.join('opt_eqb (reported "%s" %s %s m) a_%s' % (attr[a], names, flds, a) for a, _, _ in eps)
+        ranges = '[' + '; '.join('(%s, %s)' % (vlib.z(lo), vlib.z(hi)) for _, lo, hi in eps) + ']'
+        hyps = ' -> '.join('%s <= a_%s <= %s' % (vlib.z(lo), a, vlib.z(hi)) for a, lo, hi in eps)
+        txt = X_HEADER % name + '''
+(* the whole round trip of one assignment, on the models: first frame of encode(repeat_count=0) -> engine model on the class tables
+   -> bit-count guard and field extraction of IrProtocolBase.decode -> the protocol's own decode checks -> every encode parameter read
+   back from the decoded code equals the encoded one *)
+Definition rt_%(n)s (args : list Z) : bool :=
+  match args with
+  | [%(argl)s] =>
+      match first_frame (tree_eval (enc_%(n)s_0 %(args)s)) with
+      | Ok frame =>
+          match base_decode_with (%(parse)s) D_%(n)s frame with
+          | Ok %(flds)s => let m := tree_eval (dec_%(n)s %(fl)s) in %(rep)s
+          | _ => false
+          end
+      | _ => false
+      end
+  | _ => false
+  end.
+
+(* every one of the %(space)d in-range assignments, evaluated by the kernel *)
+Theorem C01X_%(n)s : forall %(args)s, %(hyps)s -> rt_%(n)s [%(argl)s] = true.
+Proof.
+  intros. apply (exhaustive_sound rt_%(n)s %(ranges)s); [vm_compute; reflexivity|repeat constructor; cbn [fst snd]; lia].
+Qed.
+Print Assumptions C01X_%(n)s.
+''' % dict(n=name, args=args, argl='; '.join('a_' + a for a, _, _ in eps), parse=parse, flds=flds, fl=fl, rep=rep, space=space,
+           ranges=ranges, hyps=hyps)
+        return txt, None
+    return gen
+
+
 def run(ctx):
     vlib.import_repo()
     info = perproto.prepare_models(ctx)
@@ -226,8 +318,19 @@ def run(ctx):
     results = perproto.run_obligations(ctx, PROP, info, gen_obligation_for(TOLS), timeout=120)
     vlib.check_props_file(ctx, PROP)
     perproto.settle(ctx, PROP, results, hits)
+    # ---- protocols outside the generic theorem whose parameter space is small: the round trip by exhaustion (exact timings)
+    limit = (1 << 13) if ctx.tier == 'quick' else (1 << 16)
+    xinfo = {n: e for n, e in info.items() if results[n]['status'] != 'proved' and not hits.get(n)}
+    xres = perproto.run_obligations(ctx, 'C01X', xinfo, gen_exhaustive(limit), timeout=2400)
+    xres = {n: r for n, r in xres.items() if r['status'] != 'unmodelled'}
+    xs = perproto.settle(ctx, 'C01X', xres, hits, merge=True)
+    ctx.extra['exhaustive'] = dict(bound=limit, attempted=sorted(xres), proved=xs['proved'],
+                                   statement='forall in-range assignments, rt_<p> args = true (first frame of encode -> engine model '
+                                             '-> IrProtocolBase.decode -> own checks -> every parameter reported as encoded), by vm_compute over '
+                                             'all assignments + all_assignments_complete')
     # correspondence: engine model (parse) on valid / perturbed / damaged frames, encode models against the encoders
     modelled = [info[n]['p'] for n in results if results[n]['status'] == 'proved']
+    xmodelled = [info[n]['p'] for n in xs['proved']]
     items = []
     for p in modelled:
         for a in gen_inputs.param_assignments(p, ctx.rng, 3 if ctx.tier == 'quick' else 30):
@@ -240,6 +343,31 @@ def run(ctx):
                                                 engine.period_of(p)), 20, False, 'perturbed'))
             mf, k = gen_inputs.mutate(f, ctx.rng)
             items.append((p, mf, 20, False, k))
+    # the engine models behind the exhaustive theorems (tables with middle timings, serial tables)
+    xitems = {}
+    for p in xmodelled:
+        for a in gen_inputs.param_assignments(p, ctx.rng, 6 if ctx.tier == 'quick' else 40):
+            c, e = engine.fresh_encode(p, a)
+            if c is None:
+                continue
+            f = list(c.normalized_rlc[0])
+            mf, k = gen_inputs.mutate(f, ctx.rng)
+            for tag, fr in (('valid', f), ('perturbed', gen_inputs.perturb(f, 20, 'random', ctx.rng, engine.period_of(p))), (k, mf)):
+                if engine.modelled_C(p):
+                    items.append((p, fr, 20, False, tag))
+                else:
+                    cls = 'MD' if engine.modelled_MD(p) else 'HT' if engine.modelled_HT(p) else 'MT' if engine.modelled_MT(p) else 'B'
+                    xitems.setdefault(cls, []).append((p, fr, 20, tag))
+    for cls, its in sorted(xitems.items()):
+        fn = dict(MD=engine.corr_parseMD, HT=engine.corr_parseHT, MT=engine.corr_parseMT, B=engine.corr_parseB)[cls]
+        mb = fn(ctx, its, name='corr_parse%s' % cls)
+        if mb is None:
+            ctx.report('correspondence', 'model-eval-failed', {}, dict(theorem='PyIR.Engine.Parse%s evaluation' % cls), found_input=False)
+            mb = []
+        for (p, code, tol, tag), impl, model in mb:
+            ctx.report(p['name'], 'parse-model-disagrees', dict(tag=tag),
+                       dict(protocol=p['name'], frame=code, tolerance=tol, impl=impl[:60], model=model[:60]))
+        ctx.extra.setdefault('correspondence_engine_x', {})[cls] = dict(cases=len(its), disagreements=len(mb))
     bad = engine.corr_parseH(ctx, items)
     if bad is None:
         ctx.report('correspondence', 'model-eval-failed', {}, dict(theorem='PyIR.Engine.Parse evaluation'), found_input=False)
@@ -247,13 +375,13 @@ def run(ctx):
     for (p, code, tol, rep, tag), impl, model in bad:
         ctx.report(p['name'], 'parse-model-disagrees', dict(tag=tag),
                    dict(protocol=p['name'], frame=code, tolerance=tol, impl=impl[:60], model=model[:60]))
-    ncases, ebad, unknown, failed = protocorr.corr_encode(ctx, modelled, 4 if ctx.tier == 'quick' else 40, ns=(0,))
+    ncases, ebad, unknown, failed = protocorr.corr_encode(ctx, modelled + xmodelled, 4 if ctx.tier == 'quick' else 40, ns=(0,))
     for p, a, n, impl, model in ebad:
         ctx.report(p['name'], 'encode-model-disagrees', dict(a, n=n),
                    dict(protocol=p['name'], params=a, repeat_count=n, impl=impl[:80], model=model[:80]))
     for name, out in failed:
         ctx.report(name, 'model-eval-failed', {}, dict(theorem='Gen.P_%s evaluation' % name, output=out), found_input=False)
-    dcases, dbad = protocorr.corr_decode(ctx, modelled, 4 if ctx.tier == 'quick' else 40)
+    dcases, dbad = protocorr.corr_decode(ctx, modelled + xmodelled, 4 if ctx.tier == 'quick' else 40)
     for p, a, impl, model in dbad:
         ctx.report(p['name'], 'decode-model-disagrees', dict(a),
                    dict(protocol=p['name'], params=a, impl=impl[:60], model=model[:60]))
